@@ -37,6 +37,9 @@ Definition ce (inv resp : Z) (o : cop) (r : cres) : cevent := (inv, resp, o, r).
 Definition zrange (lo n : Z) : list Z := map (fun i => lo + Z.of_nat i) (seq 0 (Z.to_nat n)).
 Fixpoint digs_aux (n : nat) (d : Z) : list Z := match n with O => [] | S m => Z.land d 7 :: digs_aux m (Z.shiftr d 3) end.
 Definition digs (d n : Z) : list Z := digs_aux (Z.to_nat n) d.
+(* the n low base-64 digits of d, least significant first *)
+Fixpoint digs64_aux (n : nat) (d : Z) : list Z := match n with O => [] | S m => Z.land d 63 :: digs64_aux m (Z.shiftr d 6) end.
+Definition digs64 (d n : Z) : list Z := digs64_aux (Z.to_nat n) d.
 Definition rP : gout := None.                                  (* the call panicked *)
 Definition rU : gout := Some RUnit.
 Definition rM : gout := Some (RVal None).                      (* miss *)
@@ -60,7 +63,11 @@ Inductive case :=
      routing table) for a wide facade, where 0 and 4 are issued as Set); observed only at quiescence: did any call panic,
      Exist and Peek of every key of the universe, and for a single cache Keys/Items/Stats/the four single accessors *)
 | CBurst (v : variant) (cap0 : Z) (wide : option (Z * option (list (Z * nat)))) (univ sizes : list Z) (progs : list (list Z))
-         (panicked : bool) (probe : list bprobe) (final : option snap).
+         (panicked : bool) (probe : list bprobe) (final : option snap)
+  (* a SetIfAbsent-only burst on one fresh single cache: ng goroutines, each doing, for every key k of univ in turn,
+     SetIfAbsent(k, k*64+g) (size g+1; tiny: 1) immediately followed by Get(k) or Peek(k).  obs[g][j] = the goroutine whose
+     value g saw for univ[j] in that read (63 = a miss or a foreign value).  At quiescence: Exist/Peek of every key, snapshot. *)
+| CSia (v : variant) (cap0 : Z) (ng : Z) (univ : list Z) (obs : list (list Z)) (panicked : bool) (probe : list bprobe) (final : snap).
 
 (* ---------------- decidable equalities ---------------- *)
 Definition res_eqb (a b : res) : bool :=
@@ -296,6 +303,31 @@ Definition burst_ok (v : variant) (cap0 : Z) (wide : option (Z * option (list (Z
   | _, _ => false
   end.
 
+(* ---------------- a SetIfAbsent-only burst ----------------
+   The only writes are SetIfAbsent calls with pairwise distinct values, and the capacity holds every key with the largest
+   value, so in EVERY linearisation the first SetIfAbsent of a key wins and nothing ever replaces or evicts it: per key, every
+   read that followed a SetIfAbsent of that key during the burst and the value present at quiescence are one and the same
+   value; every key is present; Size = the sum of the winners' sizes; nothing was evicted.  (C04_Sia.v) *)
+Definition sia_size (v : variant) (w : Z) : Z := bsize v (w + 1).
+Definition sia_ok (v : variant) (cap0 ng : Z) (univ : list Z) (obs : list (list Z)) (panicked : bool) (probe : list bprobe) (sn : snap) : bool :=
+  let '(keys, items, s, t) := sn in
+  let '(len, sz, cp, ev) := s in
+  let winners := map (fun it => snd it - fst it * 64) items in
+  negb panicked
+  && nodupb keys && zlist_eqb keys (map fst items) && stats_eqb s t && (len =? Z.of_nat (length keys)) && (cp =? cap0) && (ev =? 0)
+  && (length keys =? length univ)%nat
+  && list_eqb bprobe_eqb probe (expected_probe items univ)
+  && forallb (fun w => (0 <=? w) && (w <? ng)) winners
+  && (sz =? zsum (map (sia_size v) winners))
+  && forallb (fun jk =>
+       match find (fun it => fst it =? snd jk) items with
+       | Some it => let w := snd it - fst it * 64 in forallb (fun row => nth (fst jk) row (-1) =? w) obs
+       | None => false
+       end) (combine (seq 0 (length univ)) univ).
+Definition sia_dom (v : variant) (cap0 ng : Z) (univ : list Z) (obs : list (list Z)) : bool :=
+  inB cap0 && nodupb univ && (1 <=? ng) && (ng <=? 62) && (Z.of_nat (length obs) =? ng)
+  && (Z.of_nat (length univ) * sia_size v (ng - 1) <=? cap0).
+
 (* ---------------- the two functions the driver evaluates ---------------- *)
 Definition case_accept (c : case) : bool :=
   match c with
@@ -304,6 +336,7 @@ Definition case_accept (c : case) : bool :=
   | CConc v cap0 evs final => rt_ok (-1) evs && conc_accept v (new_lru cap0) evs final
     (* a burst has no single model run to compare with: accepted = consistent with every linearisation's guarantees *)
   | CBurst v cap0 wide univ sizes progs panicked probe final => burst_ok v cap0 wide univ sizes progs panicked probe final
+  | CSia v cap0 ng univ obs panicked probe final => sia_ok v cap0 ng univ obs panicked probe final
   end.
 
 (* outside the property's quantifier (negative or absurdly large sizes / capacities) nothing is claimed *)
@@ -315,6 +348,8 @@ Definition case_holds (c : case) : bool :=
   | CConc v cap0 evs final => if conc_dom cap0 evs then rt_ok (-1) evs && conc_holds v (new_istate cap0) evs final else true
   | CBurst v cap0 wide univ sizes progs panicked probe final =>
       if burst_dom cap0 wide univ sizes progs then burst_ok v cap0 wide univ sizes progs panicked probe final else true
+  | CSia v cap0 ng univ obs panicked probe final =>
+      if sia_dom v cap0 ng univ obs then sia_ok v cap0 ng univ obs panicked probe final else true
   end.
 
 (* ---------------- soundness ---------------- *)
@@ -398,7 +433,8 @@ Qed.
 
 Theorem case_sound : forall c, case_accept c = true -> case_holds c = true.
 Proof.
-  intros [v cap0 steps|v capacity n tab univ steps|v cap0 evs final|v cap0 wide univ sizes progs panicked probe final];
+  intros [v cap0 steps|v capacity n tab univ steps|v cap0 evs final|v cap0 wide univ sizes progs panicked probe final
+         |v cap0 ng univ obs panicked probe final];
     cbn [case_accept case_holds]; intros Ha.
   - destruct (seq_dom cap0 steps) eqn:Ed; [|reflexivity]. unfold seq_dom in Ed. apply andb_prop in Ed as [Hc Hd].
     apply inB_spec in Hc. change (new_istate cap0) with (abs (new_lru cap0)).
@@ -413,4 +449,5 @@ Proof.
     change (new_istate cap0) with (abs (new_lru cap0)).
     apply conc_sound; [apply new_MInv; exact Hc|exact Hd|exact Ha].
   - destruct (burst_dom cap0 wide univ sizes progs); [exact Ha|reflexivity].
+  - destruct (sia_dom v cap0 ng univ obs); [exact Ha|reflexivity].
 Qed.
